@@ -455,12 +455,11 @@ def c_cteq(ex, st, callee, a):
 
 
 # ----------------------------------------------------------------------------- std: strings, formatting
-@contract(r'^<str as PartialEq>::eq$', r'^<std::string::String as PartialEq>::eq$', r'^<std::string::String as PartialEq<&str>>::eq$',
-          r'^<&str as PartialEq>::eq$', r'^<std::string::String as PartialEq<str>>::eq$')
+@contract(r'^<&?(str|std::string::String) as PartialEq(<&?(str|std::string::String)>)?>::eq$')
 def c_str_eq(ex, st, callee, a): return [(None, simplify(as_str(st, a[0]) == as_str(st, a[1])))]
 
 
-@contract(r'^<std::string::String as PartialEq>::ne$', r'^<str as PartialEq>::ne$')
+@contract(r'^<&?(str|std::string::String) as PartialEq(<&?(str|std::string::String)>)?>::ne$')
 def c_string_ne(ex, st, callee, a): return [(None, simplify(as_str(st, a[0]) != as_str(st, a[1])))]
 
 
@@ -476,6 +475,29 @@ def c_string_from_utf8(ex, st, callee, a):
     b = as_bytes(st, a[0]); st.log.append(('from_utf8', b))
     s = from_utf8_f(b)
     return [(And(is_utf8(b), utf8(s) == b), ok(s)), (Not(is_utf8(b)), err(adt('FromUtf8Error', None)))]
+
+
+def char_boundary(s_, i):
+    """str::is_char_boundary: 0, len, or a byte that is not a UTF-8 continuation byte (10xxxxxx)"""
+    b = utf8(s_); n = Length(b)
+    return Or(i == 0, i == n, And(i > 0, i < n, Extract(7, 6, b[i]) != BitVecVal(2, 2)))
+
+
+@contract(r'^core::str::<impl str>::is_char_boundary$')
+def c_is_char_boundary(ex, st, callee, a): return [(None, char_boundary(as_str(st, a[0]), a[1]))]
+
+
+@contract(r'^<str as (std::ops::)?Index<(std::ops::)?Range(To|From|Full)?<usize>>>::index$', r'^<std::string::String as (std::ops::)?Index<(std::ops::)?Range(To|From|Full)?<usize>>>::index$',
+          r'^core::str::<impl str>::get::<(std::ops::)?Range(To|From)?<usize>>$')
+def c_str_index(ex, st, callee, a):
+    s_ = as_str(st, a[0]); b = utf8(s_); n = Length(b)
+    lo, hi = _range(a[1], n)
+    okc = And(lo >= 0, lo <= hi, hi <= n, char_boundary(s_, lo), char_boundary(s_, hi))
+    r = String('substr%d' % next(fresh)); st.pc.append(Length(utf8(r)) < 2**40)
+    res = And(okc, utf8(r) == Extract(b, lo, hi - lo))
+    st.log.append(('str_index', s_, lo, hi))
+    if '::get::' in callee: return [(res, some(r)), (Not(okc), NONE)]
+    return [(Not(okc), Panic('byte index is out of bounds or not a char boundary (str slicing) in ' + st.stack[-1]['fn'].name[-60:])), (res, r)]
 
 
 @contract(r'^core::str::<impl str>::split::<char>$')
@@ -524,8 +546,19 @@ def c_collect(ex, st, callee, a):
             rest = String('rest_%d' % next(fresh)); ln = Int('nparts_%d' % next(fresh))
             cons += [tok_ == Concat(*sum([[p, sep] for p in ps], []), rest), ln >= 5]
         outs.append((And(*cons), ('vecstr', tuple(ps), ln)))
+    st.log.append(('split', 'generic', 0))
     ex.stats['bounds']['split part-count cases'] = '1,2,3,4,>=5'
     return outs
+
+
+hex_ok = Function('hex_ok', S, BoolSort())
+hexdec = Function('hexdec', S, Bytes)
+
+
+@contract(r'^hex::decode::<')
+def c_hex_decode(ex, st, callee, a):
+    s_ = as_str(st, a[0]); x = hexdec(s_)
+    return [(And(hex_ok(s_), 2 * Length(x) == Length(s_)), ok(x)), (Or(Not(hex_ok(s_)), 2 * Length(x) != Length(s_)), err(adt('FromHexError', None)))]
 
 
 @contract(r'^Vec::<&str>::len$')
@@ -614,6 +647,7 @@ def c_b64_decode(ex, st, callee, a):
     s_ = as_str(st, a[1]); st.log.append(('b64_engine', str(a[0])[-60:]))
     if is_app(s_) and s_.decl().name() == 'b64':       # decode(b64(x)) = Ok(x): inverse contract applied directly
         return [(None, ok(s_.arg(0)))]
+    st.log.append(('b64dec', s_, b64dec(s_)))
     return [(b64dec_ok(s_), ok(b64dec(s_))), (Not(b64dec_ok(s_)), err(adt('DecodeError', None)))]
 
 
@@ -946,14 +980,15 @@ def instantiate(assertions, honest=None, secret_keys=(), rounds=2):
                 for x, y in itertools.combinations(ts, 2):
                     add(Implies(x == y, And(*[x.arg(i) == y.arg(i) for i in range(x.num_args())])))
         for t in apps.get('utf8', []):
-            add(is_utf8(t)); add(from_utf8_f(t) == t.arg(0)); add(Length(t) >= Length(t.arg(0)))
+            add(is_utf8(t)); add(from_utf8_f(t) == t.arg(0)); add(Length(t) >= Length(t.arg(0))); add(Length(t) <= 4 * Length(t.arg(0)))
             add((Length(t) == 0) == (t.arg(0) == StringVal('')))
         for t in apps.get('from_utf8', []):
             add(Implies(is_utf8(t.arg(0)), utf8(t) == t.arg(0)))
         for t in apps.get('b64', []):
             add(Not(Contains(t, StringVal('.')))); add(b64dec_ok(t)); add(b64dec(t) == t.arg(0))
-            add((t == StringVal('')) == (Length(t.arg(0)) == 0))
+            add((t == StringVal('')) == (Length(t.arg(0)) == 0)); add(Length(t.arg(0)) <= Length(t))
         for t in apps.get('b64dec', []):
+            add(Length(t) <= Length(t.arg(0)))
             add(Implies(b64dec_ok(t.arg(0)), b64(t) == t.arg(0)))
         for t in apps.get('b64dec_ok', []):
             add(Implies(t, b64(b64dec(t.arg(0))) == t.arg(0)))
